@@ -14,6 +14,17 @@ fn value(len: usize, pat: usize) -> String {
 }
 
 fn main() {
+    // value -> id lookup of the distinguished EMPTY value BEFORE anything was interned in this
+    // process (the id exists from the start; the lookup must find it, now and later)
+    {
+        use intern::InternId;
+        let empty: Vec<u8> = Vec::new();
+        let before = intern::string::BytesId::get_interned(&empty);
+        if before != Some(intern::string::BytesId::EMPTY) {
+            println!("DIFFERENT: before the first intern() of the process, looking up the empty byte string gives {before:?} instead of the id EMPTY (whose value it is)");
+            std::process::exit(1);
+        }
+    }
     let max: usize = std::env::args().nth(1).and_then(|s| s.parse().ok()).unwrap_or(1100);
     let mut seen: HashMap<u32, String> = HashMap::new();
     let mut seen_b: HashMap<intern::string::BytesId, Vec<u8>> = HashMap::new();
@@ -54,6 +65,14 @@ fn main() {
             }
             seen_b.insert(b1, bytes);
             n += 1;
+        }
+    }
+    {
+        use intern::InternId;
+        let empty: Vec<u8> = Vec::new();
+        if intern::string::BytesId::get_interned(&empty) != Some(intern::string::BytesId::EMPTY) {
+            println!("DIFFERENT: after interning, looking up the empty byte string does not give the id EMPTY");
+            std::process::exit(1);
         }
     }
     println!("values={n} lengths 0..={max}: interned values read back exactly, equal values share an id, different values do not");
